@@ -1,5 +1,6 @@
 import LinfaSpec.Proofs.NN
 import LinfaSpec.Proofs.NNMetrics
+import LinfaSpec.Drv.C07
 import Mathlib.Analysis.SpecialFunctions.Log.Basic
 import Mathlib.Algebra.Order.Field.Rat
 import Mathlib.Algebra.Order.Group.Abs
@@ -105,16 +106,16 @@ theorem range_iff_dist {m : Metric P α} (h : Lawful m) (q x : P) {r : α} (hr :
 a subtree lies within `radius` of `center`. -/
 theorem ball_inv {m : Metric P α} (h : Lawful m) (mean : List P → P)
     (split : List (Pt P) → Option (List (Pt P) × P × List (Pt P))) (hs : SplitPerm split)
-    (leafSize fuel : Nat) (pts : List (Pt P)) :
+    (leafSize fuel : Nat) (pts : List (Pt P)) (hnd : (pts.map (·.2)).Nodup) :
     BallInv m (build m mean split leafSize fuel pts) :=
-  build_inv h hs leafSize fuel pts
+  build_inv h hs leafSize fuel pts hnd
 
 /-- the tree stores exactly the batch -/
 theorem build_stores_batch {m : Metric P α} (mean : List P → P)
     (split : List (Pt P) → Option (List (Pt P) × P × List (Pt P))) (hs : SplitPerm split)
-    (leafSize fuel : Nat) (pts : List (Pt P)) :
+    (leafSize fuel : Nat) (pts : List (Pt P)) (hnd : (pts.map (·.2)).Nodup) :
     (build m mean split leafSize fuel pts).points.Perm pts :=
-  build_perm hs leafSize fuel pts
+  build_perm hs leafSize fuel pts hnd
 
 /-- **bound_sound**: the pruning bound never exceeds the reduced distance to a point of the ball. -/
 theorem bound_sound {m : Metric P α} (h : Lawful m) (q : P) (node : Ball P α) (hn : BallInv m node)
@@ -184,9 +185,9 @@ theorem search_knn_correct {m : Metric P α} (h : Lawful m) (mean : List P → P
   · rw [if_neg h0]
     have hk : 0 < k := by omega
     have ht : BallInv m (ballIndex m mean split leafSize ncols rows).tree :=
-      build_inv h (mean := mean) hs leafSize rows.length (enumerate rows)
+      build_inv h (mean := mean) hs leafSize rows.length (enumerate rows) (enumerate_nodup rows)
     have hp : (ballIndex m mean split leafSize ncols rows).tree.points.Perm (enumerate rows) :=
-      build_perm (m := m) (mean := mean) hs leafSize rows.length (enumerate rows)
+      build_perm (m := m) (mean := mean) hs leafSize rows.length (enumerate rows) (enumerate_nodup rows)
     have := isKnn_perm (search_isKnn h q hk none _ ht) (Elig_perm m q none hp)
     rw [elig_none] at this
     exact kNearest_of_isKnn m q _ _ k this
@@ -207,9 +208,9 @@ theorem search_range_correct {m : Metric P α} (h : Lawful m) (mean : List P →
   · rw [if_neg (by omega)]
     have hk : 0 < rows.length := by omega
     have ht : BallInv m (ballIndex m mean split leafSize ncols rows).tree :=
-      build_inv h (mean := mean) hs leafSize rows.length (enumerate rows)
+      build_inv h (mean := mean) hs leafSize rows.length (enumerate rows) (enumerate_nodup rows)
     have hp : (ballIndex m mean split leafSize ncols rows).tree.points.Perm (enumerate rows) :=
-      build_perm (m := m) (mean := mean) hs leafSize rows.length (enumerate rows)
+      build_perm (m := m) (mean := mean) hs leafSize rows.length (enumerate rows) (enumerate_nodup rows)
     obtain ⟨rest, hperm, hlen, _, _⟩ :=
       isKnn_perm (search_isKnn h q hk (some (m.toR r)) _ ht) (Elig_perm m q (some (m.toR r)) hp)
     -- at most n eligible points, so nothing is left out
@@ -239,6 +240,38 @@ theorem indices_agree_knn {m : Metric P α} (h : Lawful m) (mean : List P → P)
   refine ⟨ob, hb, by simp [linearKnnQ], ?_⟩
   exact kNearest_dists_unique m q _ _ _ k hkb (linear_knn_correct m q k _)
 
+/-- **the k-d tree's `within_range` glue**: `kdtree::within` (contract: `rdist ≤ radius`) followed by
+linfa's own filter `dist < range` is the strict filter of the ascending scan — the repaired border
+handling of `KdTreeIndex::within_range` is part of the model the driver runs (`kdRangeQ`). -/
+theorem kd_within_then_filter (m : Metric P α) (q : P) (t : α) (pts : List (Pt P)) :
+    (kdWithin m q t pts).filter (fun e => e.1 < t) =
+      (linearKnnTagged m q pts.length pts).filter (fun e => e.1 < t) := by
+  unfold kdWithin
+  rw [List.filter_filter]
+  apply List.filter_congr
+  intro e _
+  by_cases h : e.1 < t <;> simp [h, le_of_lt]
+
+/-- …and the filter is needed: `within` alone keeps every stored point lying exactly on the radius
+(the defect repaired in 40eef7f), the filtered answer contains none of them. -/
+theorem kd_within_keeps_border (m : Metric P α) (q : P) (r : α) (pts : List (Pt P)) (p : Pt P)
+    (hp : p ∈ pts) (hb : m.rdist q p.1 = m.toR r) :
+    (m.rdist q p.1, p) ∈ kdWithin m q (m.toR r) pts ∧
+      (m.rdist q p.1, p) ∉ (kdWithin m q (m.toR r) pts).filter (fun e => e.1 < m.toR r) := by
+  obtain ⟨hperm, _⟩ := foldl_insert_spec (tag m q) pts [] (by simp [Asc])
+  have hall : linearKnnTagged m q pts.length pts =
+      pts.foldl (fun heap p => insertAsc (tag m q p) heap) [] := by
+    unfold linearKnnTagged
+    apply List.take_of_length_le
+    rw [hperm.length_eq]; simp
+  constructor
+  · unfold kdWithin
+    rw [hall, List.mem_filter]
+    refine ⟨hperm.mem_iff.mpr ?_, by simp [hb]⟩
+    simp only [List.nil_append, List.mem_map]
+    exact ⟨p, hp, rfl⟩
+  · simp [hb]
+
 /-- **indices_agree** (range, border included): all kinds keep exactly the points with
 `rdist < dist_to_rdist r`; a point on the radius is excluded by each of them. -/
 theorem indices_agree_range {m : Metric P α} (h : Lawful m) (mean : List P → P)
@@ -265,7 +298,7 @@ theorem indices_agree_range {m : Metric P α} (h : Lawful m) (mean : List P → 
     simp only [Elig, ltR] at this
     rw [this]
     simp [linearRange]
-  refine ⟨ob, _, hb, by simp [kdRangeQ], hpb, hkd, ?_⟩
+  refine ⟨ob, _, hb, by simp [kdRangeQ, kd_within_then_filter], hpb, hkd, ?_⟩
   intro p _ heq
   have hnot : p ∉ linearRange m q r (enumerate rows) := by
     simp [linearRange, heq]
@@ -293,7 +326,7 @@ def splitQ : List (Pt ℚ) → Option (List (Pt ℚ) × ℚ × List (Pt ℚ))
   | p :: ps => some ([p], p.1, ps)
 
 theorem splitQ_perm : SplitPerm splitQ := by
-  intro pts a c b h
+  intro pts a c b _ h
   cases pts with
   | nil => simp [splitQ] at h
   | cons p ps =>
@@ -315,7 +348,7 @@ example : ∃ out, ballRangeQ mQ (ballIndex mQ meanQ splitQ 2 1 [0, 3, 1, 3, 7])
     out.Perm (linearRange mQ 2 1 (enumerate [0, 3, 1, 3, 7])) :=
   search_range_correct mQ_lawful meanQ splitQ splitQ_perm 2 1 _ 2 1
 example : BallInv mQ (build mQ meanQ splitQ 1 5 (enumerate [0, 3, 1, 3, 7])) :=
-  ball_inv mQ_lawful meanQ splitQ splitQ_perm 1 5 _
+  ball_inv mQ_lawful meanQ splitQ splitQ_perm 1 5 _ (enumerate_nodup _)
 example : KNearest mQ 2 (enumerate [0, 3, 1, 3, 7]) (linearKnn mQ 2 9 (enumerate [0, 3, 1, 3, 7])) 9 :=
   linear_knn_correct mQ 2 9 _
 example : buildCheck 3 16 = .ok () ∧ buildCheck 0 16 = .error .zeroDimension ∧
@@ -608,7 +641,7 @@ def splitFirst {P : Type} : List (Pt P) → Option (List (Pt P) × P × List (Pt
   | p :: ps => some ([p], p.1, ps)
 
 theorem splitFirst_perm {P : Type} : SplitPerm (splitFirst (P := P)) := by
-  intro pts a c b h
+  intro pts a c b _ h
   cases pts with
   | nil => simp [splitFirst] at h
   | cons p ps =>
@@ -747,5 +780,168 @@ example : lp (3 : ℝ) [3, 4] [0, 0] = lp (3 : ℝ) [0, 0] [3, 4] ∧ ((0 : ℝ)
   lp_symm_self 3 [3, 4] [0, 0]
 
 end lp
+
+/-! ### the functions the driver runs: the replayed split, the leaf mean, one request -/
+section driver
+open LinfaSpec.Drv.C07
+
+theorem lookAll_spec {P : Type} (pts : List (Pt P)) : ∀ (is : List Nat) (out : List (Pt P)),
+    lookAll pts is = some out → out.map (·.2) = is ∧ ∀ p ∈ out, p ∈ pts
+  | [], out, h => by
+    simp only [lookAll, Option.some.injEq] at h
+    subst h
+    simp
+  | i :: is, out, h => by
+    simp only [lookAll] at h
+    split at h
+    · rename_i p ps hp hps
+      simp only [Option.some.injEq] at h
+      subst h
+      obtain ⟨h1, h2⟩ := lookAll_spec pts is ps hps
+      have hm : p ∈ pts := List.mem_of_find?_eq_some hp
+      have hi : p.2 = i := by
+        have := List.find?_some hp
+        simpa using this
+      refine ⟨by simp [h1, hi], ?_⟩
+      intro x hx
+      rcases List.mem_cons.mp hx with rfl | hx
+      · exact hm
+      · exact h2 x hx
+    · simp at h
+
+/-- a list of stored points whose positions are (as a multiset) the positions of `pts`, all taken
+from `pts`, is a permutation of `pts` when positions are distinct -/
+theorem perm_of_positions {P : Type} {ab pts : List (Pt P)} (hnd : (pts.map (·.2)).Nodup)
+    (hmap : (ab.map (·.2)).Perm (pts.map (·.2))) (hsub : ∀ x ∈ ab, x ∈ pts) : ab.Perm pts := by
+  have hnd_ab : (ab.map (·.2)).Nodup := (hmap.nodup_iff).mpr hnd
+  have h1 : ab.Nodup := List.Nodup.of_map _ hnd_ab
+  have h2 : pts.Nodup := List.Nodup.of_map _ hnd
+  apply (List.perm_ext_iff_of_nodup h1 h2).mpr
+  intro x
+  constructor
+  · exact hsub x
+  · intro hx
+    have hx2 : x.2 ∈ ab.map (·.2) := hmap.mem_iff.mpr (List.mem_map.mpr ⟨x, hx, rfl⟩)
+    obtain ⟨y, hy, hyx⟩ := List.mem_map.mp hx2
+    have hyx' : y = x := List.inj_on_of_nodup_map hnd (hsub y hy) hx hyx
+    exact hyx' ▸ hy
+
+/-- what `scriptSplit` returns, whatever the script says: two non-empty halves taken from `pts`
+whose positions together are the positions of `pts`, and the coordinates of one of its points -/
+theorem scriptSplit_shape {P : Type} (script : Script) (pts a b : List (Pt P)) (c : P)
+    (h : scriptSplit script pts = some (a, c, b)) :
+    ((a ++ b).map (·.2)).Perm (pts.map (·.2)) ∧ (∀ x ∈ a ++ b, x ∈ pts) ∧ a ≠ [] ∧ b ≠ [] ∧
+      ∃ p ∈ pts, p.1 = c := by
+  simp only [scriptSplit] at h
+  split at h
+  · simp at h
+  · rename_i c' l r hfind
+    split at h
+    · rename_i a' b' cp ha hb hc
+      split at h
+      · simp at h
+      · rename_i hne
+        simp only [Option.some.injEq, Prod.mk.injEq] at h
+        obtain ⟨rfl, rfl, rfl⟩ := h
+        have hkey := List.find?_some hfind
+        simp only [Bool.and_eq_true, beq_iff_eq] at hkey
+        obtain ⟨_, hsort⟩ := hkey
+        have hperm : (l ++ r).Perm (pts.map (·.2)) := by
+          have h1 := List.mergeSort_perm (l ++ r) (fun a b => decide (a ≤ b))
+          have h2 := List.mergeSort_perm (pts.map (·.2)) (fun a b => decide (a ≤ b))
+          unfold sortNat at hsort
+          rw [hsort] at h1
+          exact h1.symm.trans h2
+        obtain ⟨hla, hma⟩ := lookAll_spec pts l a' ha
+        obtain ⟨hlb, hmb⟩ := lookAll_spec pts r b' hb
+        simp only [Bool.or_eq_true, List.isEmpty_iff, not_or] at hne
+        refine ⟨by rw [List.map_append, hla, hlb]; exact hperm, ?_, hne.1, hne.2,
+          cp, List.mem_of_find?_eq_some hc, rfl⟩
+        intro x hx
+        rcases List.mem_append.mp hx with hx | hx
+        · exact hma x hx
+        · exact hmb x hx
+    · simp at h
+
+/-- **the split the driver replays satisfies the contract of `partition` for EVERY script** (also a
+corrupt one: it is then refused): the hypothesis `SplitPerm` of the search theorems is discharged for
+the very function `Drv/C07.run` passes to `knnRequest` / `rangeRequest` / `ballIndex`. -/
+theorem scriptSplit_splitPerm {P : Type} (script : Script) :
+    SplitPerm (scriptSplit (P := P) script) := by
+  intro pts a c b hnd h
+  obtain ⟨hmap, hsub, _⟩ := scriptSplit_shape script pts a b c h
+  exact perm_of_positions hnd hmap hsub
+
+variable {α : Type} [Field α] [LinearOrder α] [IsStrictOrderedRing α]
+
+theorem foldl_zipWith_length (ps : List (List α)) (c : List α) (d : Nat) (hc : c.length = d)
+    (h : ∀ p ∈ ps, p.length = d) :
+    (ps.foldl (fun c x => List.zipWith (· + ·) c x) c).length = d := by
+  induction ps generalizing c with
+  | nil => simpa using hc
+  | cons p ps ih =>
+    simp only [List.foldl_cons]
+    apply ih
+    · simp [hc, h p (by simp)]
+    · intro x hx
+      exact h x (by simp [hx])
+
+/-- **the leaf centre stays in the dimension of its points**: `vecMean` (the `c += p; c / len` loop
+the driver runs) of a non-empty list of `d`-dimensional rows is `d`-dimensional — the mean used in
+the subtype instantiation of the metric theorems is the driver's `vecMean`. -/
+theorem vecMean_length (ps : List (List α)) (d : Nat) (hne : ps ≠ []) (h : ∀ p ∈ ps, p.length = d) :
+    (vecMean ps).length = d := by
+  cases ps with
+  | nil => exact absurd rfl hne
+  | cons p ps =>
+    simp only [vecMean, List.length_map]
+    apply foldl_zipWith_length
+    · simp [h p (by simp)]
+    · exact h
+
+/-- `vecMean` as a function on the points of dimension `d` (the empty leaf of the empty tree, which
+the search never reaches, gets the origin) -/
+def meanDim (d : Nat) (ps : List {l : List α // l.length = d}) : {l : List α // l.length = d} :=
+  if h : ps = [] then ⟨List.replicate d 0, by simp⟩
+  else ⟨vecMean (ps.map (·.1)), vecMean_length _ d (fun h0 => h (List.map_eq_nil_iff.mp h0)) (by
+    intro p hp
+    obtain ⟨x, _, rfl⟩ := List.mem_map.mp hp
+    exact x.2)⟩
+
+theorem meanDim_val (d : Nat) (ps : List {l : List α // l.length = d}) (h : ps ≠ []) :
+    (meanDim d ps).1 = vecMean (ps.map (·.1)) := by
+  simp [meanDim, h]
+
+/-- **one request as the driver answers it** (`Drv/C07.run`: `knnRequest m vecMean (scriptSplit
+script) …`), for every script, every lawful metric and every mean: the k-nearest and the range
+clause of the statement, with no hypothesis on the split left. -/
+theorem driver_request_correct {P : Type} {m : Metric P α} (h : Lawful m) (mean : List P → P)
+    (script : Script) (kind : Kind) (form : Form) (ncols : Nat) (hl : 0 < form.leafSize)
+    (hc : 0 < ncols) (rows : List P) (q : P) (k : Nat) (r : α) :
+    (∃ out, knnRequest m mean (scriptSplit script) kind form ncols rows ncols q k = .ok out ∧
+      KNearest m q (enumerate rows) out k) ∧
+    (∃ out, rangeRequest m mean (scriptSplit script) kind form ncols rows ncols q r = .ok out ∧
+      out.Perm (linearRange m q r (enumerate rows)) ∧
+      (0 ≤ r → ∀ p, p ∈ out ↔ p ∈ enumerate rows ∧ m.dist q p.1 < r)) :=
+  ⟨common_knn_correct h mean _ (scriptSplit_splitPerm script) kind form ncols hl hc rows q k,
+    common_range_correct h mean _ (scriptSplit_splitPerm script) kind form ncols hl hc rows q r⟩
+
+-- non-vacuity: a script with one entry (centre = row 1, left = row 0, right = rows 1, 2) on three
+-- rational points; a corrupt script (an empty half) is refused, the theorem still applies
+example : scriptSplit [(1, [0], [1, 2])] (enumerate [(5 : ℚ), 7, 9]) =
+    some ([(5, 0)], 7, [(7, 1), (9, 2)]) := by
+  simp [scriptSplit, lookAll, sortNat, enumerate]
+example : scriptSplit [(1, [], [0, 1, 2])] (enumerate [(5 : ℚ), 7, 9]) = none := by
+  simp [scriptSplit, lookAll, sortNat, enumerate]
+example : ∃ out, knnRequest mQ meanQ (scriptSplit [(1, [0], [1, 2])]) .ball (.leaf 1) 1 [5, 7, 9] 1 6 2
+      = .ok out ∧ KNearest mQ 6 (enumerate [5, 7, 9]) out 2 :=
+  (driver_request_correct mQ_lawful meanQ [(1, [0], [1, 2])] .ball (.leaf 1) 1 (by decide) (by decide)
+    [5, 7, 9] 6 2 1).1
+example : (vecMean [[(1 : ℚ), 2], [3, 4]]).length = 2 :=
+  vecMean_length _ 2 (by simp) (by simp)
+example : (meanDim 2 [v2 1 2, v2 3 4]).1 = vecMean [[(1 : ℚ), 2], [3, 4]] :=
+  meanDim_val 2 _ (by simp)
+
+end driver
 
 end LinfaSpec.Props.C07
